@@ -25,7 +25,7 @@ import (
 func init() {
 	fw.Register(&fw.Check{
 		ID: "C16", Level: "model_checking",
-		Rule:   "controlled cooperative scheduler + DFS over schedules with iterative preemption bounding (0, 1, 2; thorough 3) on a source-instrumented build (import \"sync\" -> scheduler-aware shim; every statement touching the guarded fields of a mutex-bearing struct or a mutable package-level variable preceded by an access hook = scheduling point; every write to a struct field reached through a pointer, and every read of a field that some statement writes, reported to the happens-before monitor without a scheduling point (all packages but the scanner); the pinned schema library's own synchronisation (two RWMutexes, one Once, two sync.Pools - the pools as deterministic LIFO free lists, fresh per execution, Get / Put scheduling points with the Put -> Get happens-before edge) redirected to the same shim; generated VerifResetGlobals). H1: for each of the 7 generated collection types, every scenario of 2 writers x 1 reader with one operation each from {Set, SetToTop, Update, Set other key} x {Get, Len, Each, MarshalJSON} on keys forced to collide, from an empty or pre-filled collection: no data race (vector-clock happens-before monitor), no deadlock, the history is linearizable against a sequential ordered-map reference (brute force over the <= 3! orders consistent with real time), no lost update, every key once in the order; H2: 2-3 threads making the process's first calls to NewDirectiveType; H3: two whole parses (same / different / rejected documents) against package-level state, and 2-3 whole parses that were handed the same option value; H4: one validated catalog whose first serialisation and reads happen in 2-3 threads at once (reference result from a second catalog built from the same text); plus a free-running pass of the same bodies under the Go race detector; non-trivial = schedule in which at least two threads touched the same object; distinct = distinct (scenario, schedule) ; H1 reader op keys-stop: an iteration stopped by its callback after the first element (what it leaves locked blocks the writers: deadlock)",
+		Rule:   "controlled cooperative scheduler + DFS over schedules with iterative preemption bounding (0, 1, 2; thorough 3) on a source-instrumented build (import \"sync\" -> scheduler-aware shim; every statement touching the guarded fields of a mutex-bearing struct or a mutable package-level variable preceded by an access hook = scheduling point; every write to a struct field reached through a pointer, and every read of a field that some statement writes, reported to the happens-before monitor without a scheduling point (all packages but the scanner); the pinned schema library's own synchronisation (two RWMutexes, one Once, two sync.Pools - the pools as deterministic LIFO free lists, fresh per execution, Get / Put scheduling points with the Put -> Get happens-before edge) redirected to the same shim; generated VerifResetGlobals). H1: for each of the 7 generated collection types, every scenario of 2 writers x 1 reader with one operation each from {Set, SetToTop, Update, Set other key} x {Get, Len, Each, MarshalJSON} on keys forced to collide, from an empty or pre-filled collection: no data race (vector-clock happens-before monitor), no deadlock, the history is linearizable against a sequential ordered-map reference (brute force over the <= 3! orders consistent with real time), no lost update, every key once in the order; H2: 2-3 threads making the process's first calls to NewDirectiveType; H3: two whole parses (same / different / rejected documents) against package-level state, and 2-3 whole parses that were handed the same option value, and two parses over ONE file object (results as alone, the caller's bytes unchanged); H4: one validated catalog whose first serialisation and reads happen in 2-3 threads at once (reference result from a second catalog built from the same text); plus a free-running pass of the same bodies under the Go race detector; non-trivial = schedule in which at least two threads touched the same object; distinct = distinct (scenario, schedule) ; H1 reader op keys-stop: an iteration stopped by its callback after the first element (what it leaves locked blocks the writers: deadlock)",
 		Assume: []string{"weak-memory reorderings are not modelled: the happens-before monitor reports the race that would permit them", "the schema library's own synchronisation is covered only by the free-running race-detector pass"},
 		Run:    runC16, QuickCap: 10 * time.Minute, ThoroughCap: 40 * time.Minute,
 	})
@@ -807,6 +807,56 @@ func runC16(c *fw.Ctx) {
 						if res[i] != soloO[k] {
 							return "differs", fmt.Sprintf("project %s processed with an option value shared with the other projects gives %s, with its own option values %s", k, clipS(res[i], 120), clipS(soloO[k], 120))
 						}
+					}
+					return "same", ""
+				}
+			}
+			runHarness(h)
+		}
+	}
+
+	// H3'': one file object handed to two projects that are processed at the same time (the library
+	// only reads its input): each result equals the result from a private copy, and the caller's
+	// bytes are what they were
+	{
+		shared := map[string]string{
+			"crlf-description": strings.ReplaceAll("JSIGHT 0.3\nINFO\n  Title \"A \\\"q\\\" \\\\ t\"\n  Description\n    line one\n      line two\n    line three\n    line four\nGET /d // note\n  Description\n    a\n    b\n    c\n  200 any\n", "\n", "\r\n"),
+			"lf-escapes":       "JSIGHT 0.3\nINFO\n  Title \"B \\\"x\\\" \\\\\"\nSERVER @s\n  BaseUrl \"http://h/\\\\p\"\nGET \"/q\"\n  Query \"a=\\\"1\\\"\"\n    {\"a\": \"1\"}\n  200 any\n",
+		}
+		parseFile := func(f *fs.File) string {
+			cc := core.NewJApiCore(f, core.WithFixedSeedForRegex())
+			if je := cc.ValidateJAPI(); je != nil {
+				return fmt.Sprintf("err %d %s", je.Index(), je.Msg)
+			}
+			b, err := cc.Catalog().ToJson()
+			if err != nil {
+				return "sererr " + err.Error()
+			}
+			return string(b)
+		}
+		for name, text := range shared {
+			name, text := name, text
+			alone := parseFile(fs.NewFile("root.jst", []byte(text)))
+			if strings.HasPrefix(alone, "err ") {
+				c.Note("harness_fault", "H3'' document "+name+" is not accepted: "+clipS(alone, 200))
+				c.NotExhaustive("H3'' document " + name + " rejected")
+				continue
+			}
+			h := harness{name: "H3-shared-file " + name}
+			h.maxBound = 1
+			h.setup = func() ([]func(), []interface{}, func() (string, string)) {
+				buf := []byte(text)
+				f := fs.NewFile("root.jst", buf) // the file keeps this very slice
+				res := make([]string, 2)
+				bodies := []func(){func() { res[0] = parseFile(f) }, func() { res[1] = parseFile(f) }}
+				return bodies, []interface{}{vsync.GID("directive.ee")}, func() (string, string) {
+					for i := range res {
+						if res[i] != alone {
+							return "differs", fmt.Sprintf("project %d over the shared file object gives %s, alone %s", i, clipS(res[i], 120), clipS(alone, 120))
+						}
+					}
+					if string(buf) != text {
+						return "input-changed", "the bytes of the file object the caller handed in were changed"
 					}
 					return "same", ""
 				}
